@@ -12,8 +12,9 @@ REPO = os.environ.get("VERIF_REPO", "/repo")
 VERIF = os.path.dirname(os.path.dirname(os.path.abspath(__file__)))
 
 
-def reexec_if_needed(hashseed=HASHSEED):
+def reexec_if_needed(hashseed=None):
     """Re-exec the interpreter so that hash randomisation is fixed."""
+    hashseed = hashseed or os.environ.get("VERIF_HASHSEED", HASHSEED)
     if os.environ.get("PYTHONHASHSEED") != hashseed:
         env = dict(os.environ)
         env["PYTHONHASHSEED"] = hashseed
